@@ -142,6 +142,17 @@ func sysOp(s *sys.System, ctx *core.Context, o map[string]interface{}) map[strin
 		var v interface{}
 		json.Unmarshal([]byte(got), &v)
 		res = map[string]interface{}{"ok": true, "val": v}
+	case "listrules":
+		ids, err := s.ListRules(ctx, name, boolean(o["inherited"]))
+		if err != nil {
+			return errRes(err)
+		}
+		sort.Strings(ids)
+		out := make([]interface{}, 0, len(ids))
+		for _, x := range ids {
+			out = append(out, x)
+		}
+		res = map[string]interface{}{"ok": true, "ids": out}
 	case "getrule":
 		got, err := s.GetRule(ctx, name, id)
 		if err != nil {
